@@ -67,7 +67,12 @@ impl StatSlot for ConcurrencyStatSlot {
                 let metric = tc.metric();
                 match metric.concurrency_counter.get(&arg) {
                     Some(counter) => {
-                        counter.fetch_sub(1, Ordering::SeqCst);
+                        // an entry admitted before a reload replaced this rule's statistics
+                        // was never counted here: its exit must not take the counter below
+                        // zero (it would wrap and the value would be rejected from then on)
+                        let _ = counter.fetch_update(Ordering::SeqCst, Ordering::SeqCst, |c| {
+                            c.checked_sub(1)
+                        });
                     }
                     None => {
                         logging::debug!("[ConcurrencyStatSlot on_entry_passed] Parameter does not exist in ConcurrencyCounter., argument: {:?}", arg);
